@@ -25,6 +25,33 @@ def dots(t: str) -> str:
     return ".".join(str(ord(c)) for c in t)
 
 
+_PAIR_PARSER = None
+
+
+def pair_problem(text: str):
+    """Pair.line_col() / Pair.span() of REAL pairs at every offset 0..len (file = { SOI ~ ch* ~ EOI }, ch = { ANY }:
+    one ch pair per character, the EOI pair at len) against Position.line_col() of the pair's start."""
+    global _PAIR_PARSER
+    from pest import Parser
+    from pest.pairs import Position
+    if _PAIR_PARSER is None:
+        _PAIR_PARSER = Parser.from_grammar("file = { SOI ~ ch* ~ EOI }\nch = { ANY }\n", optimizer=None)
+    try:
+        pairs = _PAIR_PARSER.parse("file", text)
+    except Exception as e:  # noqa: BLE001
+        return f"parse of {text!r} raised {type(e).__name__}"
+    for pr in pairs.flatten():
+        want = Position(text, pr.start).line_col()
+        got = pr.line_col()
+        if got != want:
+            return (f"Pair({pr.name!r}, {pr.start}..{pr.end}).line_col() = {got} in {text!r}, "
+                    f"Position.line_col() of its start is {want}")
+        sp = pr.span()
+        if (sp.start, sp.end) != (pr.start, pr.end) or str(sp) != text[pr.start:pr.end]:
+            return f"Pair({pr.name!r}, {pr.start}..{pr.end}).span() is {sp.start}..{sp.end} in {text!r}"
+    return None
+
+
 def impl_render(text: str):
     """Same wire format as the driver's L command, computed from the implementation;
     also checks the property's arithmetic directly (for \\n-only texts)."""
@@ -79,6 +106,8 @@ def chunk(texts):
         except Exception as e:  # noqa: BLE001
             bad.append({"kind": "property", "text": t, "what": f"{type(e).__name__}: {e}"})
             continue
+        if problem is None:
+            problem = pair_problem(t)
         if problem:
             bad.append({"kind": "property", "text": t, "what": problem})
             continue
@@ -168,7 +197,7 @@ def check(prop: str, tier: str, seed: int):
             res.rule = (f"ALL texts over {{a, b, \\n}} up to length {maxlen} ({len(texts)} texts) plus all texts over "
                         f"{{a, \\n, \\r}} up to length 5 and {len(extra)} seeded non-ASCII / other-line-break texts; "
                         "for every offset 0..len: Position.line_col, line_of; for every span a<=b: Span.lines, str, "
-                        "start_pos/end_pos/split, compared with the extracted Coq model (LineCol.v) and, for \\n-only "
+                        "start_pos/end_pos/split, Pair.line_col / Pair.span of real pairs at every offset, compared with the extracted Coq model (LineCol.v) and, for \\n-only "
                         "texts, with the property's arithmetic written out independently. evaluations = offset and "
                         "span queries; non-trivial = exhaustive texts containing a line break.")
             res.samples = ["'ab' p=2 -> (1,3)", "'a\\n' p=2 -> (2,1)", "'' p=0 -> (1,1)", "'a\\r\\nb' p=3 -> (2,1)"]
